@@ -114,7 +114,15 @@ class PE:
                 return env[e.id]
             return self.unknown(e, env)
         if isinstance(e, (ast.Tuple, ast.List, ast.Set)):
-            vals = [self.ev(x, env) for x in e.elts]
+            vals = []
+            for x in e.elts:
+                if isinstance(x, ast.Starred):
+                    inner = self.ev(x.value, env)
+                    if not isinstance(inner, (tuple, list)):
+                        return UNKNOWN
+                    vals.extend(inner)
+                else:
+                    vals.append(self.ev(x, env))
             if any(v is UNKNOWN for v in vals):
                 return UNKNOWN
             return tuple(vals) if isinstance(e, ast.Tuple) else (list(vals) if isinstance(e, ast.List) else set(vals))
